@@ -7,6 +7,7 @@ import (
 	"errors"
 	"fmt"
 	"io"
+	"math"
 	"runtime"
 	"strconv"
 	"strings"
@@ -331,8 +332,140 @@ func TestVerifDriver(t *testing.T) {
 			})
 			return map[string]any{"hist": [][6]int{}, "results": [][][2]int{}, "ctor_panic": panicked, "stuck": 0, "timeouts": 0}
 		}
+		if c.Prim == "spinx" || c.Prim == "donex" {
+			return vStress(&c)
+		}
 		return vRun(&c)
 	})
+}
+
+// vTimeout is the timeout of a TimeoutLimit.Borrow: A milliseconds, or a boundary duration chosen by B.
+func vTimeout(op vOp) time.Duration {
+	switch op.B {
+	case 1:
+		return time.Duration(math.MaxInt64) // "wait for ever"
+	case 2:
+		return time.Duration(math.MaxInt64 - 1)
+	case 3:
+		return 100 * 365 * 24 * time.Hour // a hundred years
+	case 4:
+		return time.Duration(math.MaxInt64 / 2)
+	case 5:
+		return 10000 * time.Hour
+	}
+	return time.Duration(op.A) * time.Millisecond
+}
+
+// vStress runs the contention cases that have no scheduling point to gate: N goroutines hammer the
+// primitive for M milliseconds and count what must never happen.
+//
+//	spinx: Lock / TryLock-spin, an atomic occupancy counter is checked inside the critical section;
+//	donex: all goroutines, released together, Close the same fresh DoneChan and each checks that
+//	       Done() is closed as soon as its own Close has returned.
+//
+// Observation: per goroutine (rounds completed (capped), violations seen).
+func vStress(c *vCase) any {
+	if runtime.GOMAXPROCS(0) < 2 {
+		defer runtime.GOMAXPROCS(runtime.GOMAXPROCS(4))
+	}
+	g := c.N
+	if g < 2 {
+		g = 2
+	}
+	deadline := time.Now().Add(time.Duration(c.M) * time.Millisecond)
+	rounds := make([]int64, g)
+	bad := make([]int64, g)
+	var wg sync.WaitGroup
+	switch c.Prim {
+	case "spinx":
+		var l SpinLock
+		var in int32
+		for i := 0; i < g; i++ {
+			wg.Add(1)
+			go func(i int) {
+				defer wg.Done()
+				for k := 0; ; k++ {
+					if k%64 == 0 && time.Now().After(deadline) {
+						return
+					}
+					if (k+i)%3 == 0 {
+						for !l.TryLock() {
+							runtime.Gosched()
+						}
+					} else {
+						l.Lock()
+					}
+					if atomic.AddInt32(&in, 1) != 1 {
+						bad[i]++
+					}
+					if k%8 == 0 {
+						runtime.Gosched() // hold the lock for a while: the others spin, newcomers arrive
+					}
+					if atomic.AddInt32(&in, -1) != 0 {
+						bad[i]++
+					}
+					l.Unlock()
+					rounds[i]++
+				}
+			}(i)
+		}
+		wg.Wait()
+	case "donex":
+		var cur atomic.Pointer[DoneChan]
+		var gen, finished, stop int32
+		for i := 0; i < g; i++ {
+			wg.Add(1)
+			go func(i int) {
+				defer wg.Done()
+				seen := int32(0)
+				for {
+					for spins := 1; atomic.LoadInt32(&gen) == seen; spins++ { // spin barrier: everybody leaves it together
+						if atomic.LoadInt32(&stop) != 0 {
+							return
+						}
+						if spins%2048 == 0 {
+							runtime.Gosched()
+						}
+					}
+					seen = atomic.LoadInt32(&gen)
+					dc := cur.Load()
+					dc.Close()
+					select {
+					case <-dc.Done():
+					default:
+						bad[i]++ // my Close has returned but Done() is not closed
+					}
+					rounds[i]++
+					atomic.AddInt32(&finished, 1)
+				}
+			}(i)
+		}
+		for time.Now().Before(deadline) {
+			cur.Store(NewDoneChan())
+			atomic.StoreInt32(&finished, 0)
+			atomic.AddInt32(&gen, 1)
+			for spins := 1; atomic.LoadInt32(&finished) != int32(g); spins++ {
+				if spins%2048 == 0 {
+					runtime.Gosched()
+				}
+			}
+		}
+		atomic.StoreInt32(&stop, 1)
+		wg.Wait()
+	}
+	results := make([][][2]int, g)
+	for i := 0; i < g; i++ {
+		r, b := rounds[i], bad[i]
+		if r > 4000 {
+			r = 4000
+		}
+		if b > 4000 {
+			b = 4000
+		}
+		results[i] = [][2]int{{int(r), int(b)}}
+	}
+	return map[string]any{"hist": [][6]int{}, "results": results, "stuck": 0, "timeouts": 0,
+		"info": fmt.Sprintf("%s g=%d %dms procs=%d", c.Prim, g, c.M, runtime.GOMAXPROCS(0))}
 }
 
 func vRun(c *vCase) any {
@@ -693,7 +826,7 @@ func vRun(c *vCase) any {
 			begin := time.Now()
 			switch op.Code {
 			case 0:
-				if err := l.Borrow(time.Duration(op.A) * time.Millisecond); err == ErrTimeout {
+				if err := l.Borrow(vTimeout(op)); err == ErrTimeout {
 					r = 1
 				} else if err != nil {
 					r = 9
